@@ -54,9 +54,17 @@ type params struct {
 	// Again: the faulty tree is loaded a second time before any repair: the
 	// fault must be reported every time, not only the first
 	Again bool `json:"load_again,omitempty"`
+	// Goflags is the caller's GOFLAGS during the load: "default" keeps the
+	// harness' own (-mod=mod), "unset" removes it, "tags" is -tags=verifx: then
+	// package 0 has one more file guarded by //go:build verifx, which belongs to
+	// the package under these flags (and may be among the arguments)
+	Goflags string `json:"goflags,omitempty"`
+	// Gowork puts a go.work file using the module above it (never together
+	// with -mod=mod, which the go command refuses in workspace mode)
+	Gowork bool `json:"gowork,omitempty"`
 }
 
-var noiseKinds = []string{"ext_test", "in_test", "ignore_main", "os_variant", "underscore_garbage", "dot_garbage", "testdata_garbage", "nested_module", "hidden_dir"}
+var noiseKinds = []string{"broken_sibling_package", "ext_test", "in_test", "ignore_main", "os_variant", "underscore_garbage", "dot_garbage", "testdata_garbage", "nested_module", "hidden_dir"}
 
 // faults that are one extra file zz_*.go and can be repaired by removing it
 var repairable = map[string]bool{"type_error_root": true, "type_error_import": true, "type_error_import_body": true, "unused_import_root": true,
@@ -158,6 +166,9 @@ func (c17) Generate(env *kernel.Env, r *kernel.Rand, index int) any {
 	}
 	// arguments
 	na := r.Range(1, 5)
+	if r.Chance(1, 8) {
+		na = r.Range(6, 10) // long lists
+	}
 	if r.Chance(1, 40) {
 		na = 0 // the empty set: nothing to load, but still no crash
 	}
@@ -202,6 +213,18 @@ func (c17) Generate(env *kernel.Env, r *kernel.Rand, index int) any {
 		p.Second = kernel.Pick(r, []string{"type_error_root", "syntax_error_root", "missing", "type_error_import"})
 		p.FaultA = r.Intn(64)
 	}
+	switch r.Intn(6) {
+	case 0:
+		p.Goflags = "unset"
+		p.Gowork = r.Chance(1, 2)
+	case 1:
+		p.Goflags = "tags"
+		p.Gowork = r.Chance(1, 3)
+		if r.Chance(1, 2) {
+			// the tagged file is itself requested
+			p.Args = append(p.Args, fileArg{Pkg: 0, File: -1, Spelling: kernel.Pick(r, []string{"abs", "rel"})})
+		}
+	}
 	return p
 }
 
@@ -233,6 +256,25 @@ func (c17) Execute(env *kernel.Env, raw json.RawMessage, ch *kernel.Choices) *ke
 	}
 	quiet()
 	out := &kernel.Outcome{}
+	// the build-tagged file of package 0 (file index -1 in the arguments)
+	{
+		tagged := -1
+		if p.Goflags == "tags" && len(p.Pkgs) > 0 {
+			p.Pkgs[0].Files = append(append([]string(nil), p.Pkgs[0].Files...), "zt_tagged.go")
+			tagged = len(p.Pkgs[0].Files) - 1
+		}
+		var args []fileArg
+		for _, a := range p.Args {
+			if a.File == -1 {
+				if tagged < 0 || a.Pkg != 0 {
+					continue
+				}
+				a.File = tagged
+			}
+			args = append(args, a)
+		}
+		p.Args = args
+	}
 	runCounter++
 	base := filepath.Join(env.Scratch, fmt.Sprintf("c17-%d-%d", os.Getpid(), runCounter))
 	defer os.RemoveAll(base)
@@ -245,6 +287,10 @@ func (c17) Execute(env *kernel.Env, raw json.RawMessage, ch *kernel.Choices) *ke
 	must(os.MkdirAll(modRoot, 0o755))
 	must(os.MkdirAll(filepath.Join(base, "elsewhere"), 0o755))
 	must(os.WriteFile(filepath.Join(modRoot, "go.mod"), []byte("module "+p.Module+"\n\ngo 1.23\n"), 0o644))
+	if p.Gowork && p.Goflags != "" && p.Goflags != "default" {
+		must(os.WriteFile(filepath.Join(filepath.Dir(modRoot), "go.work"), []byte("go 1.23\n\nuse ./mod\n"), 0o644))
+		out.Fault("env_go_work_above_module")
+	}
 	importPath := func(i int) string {
 		if p.Pkgs[i].Dir == "" {
 			return p.Module
@@ -256,6 +302,9 @@ func (c17) Execute(env *kernel.Env, raw json.RawMessage, ch *kernel.Choices) *ke
 		must(os.MkdirAll(dir, 0o755))
 		for j, f := range ps.Files {
 			var b strings.Builder
+			if f == "zt_tagged.go" {
+				b.WriteString("//go:build verifx\n\n")
+			}
 			fmt.Fprintf(&b, "package %s\n\n", ps.Name)
 			if j == 0 && len(ps.Imports) > 0 {
 				b.WriteString("import (\n")
@@ -299,6 +348,9 @@ func (c17) Execute(env *kernel.Env, raw json.RawMessage, ch *kernel.Choices) *ke
 			case "nested_module":
 				w("zn_tool/go.mod", "module example.org/other/tool\n\ngo 1.23\n")
 				w("zn_tool/main.go", "package main\n\nvar broken int = \"s\"\n")
+			case "broken_sibling_package":
+				// an unrelated package of the module, below the package directory, with a type error
+				w("zn_sibling/broken.go", "package zn_sibling\n\nvar Broken int = \"not an int\"\n")
 			case "hidden_dir":
 				w("_old/old.go", "package old\n\nfunc broken( {\n")
 				w(".cache/c.go", "garbage\n")
@@ -483,6 +535,22 @@ func (c17) Execute(env *kernel.Env, raw json.RawMessage, ch *kernel.Choices) *ke
 		}
 	}
 
+	savedFlags, hadFlags := os.LookupEnv("GOFLAGS")
+	switch p.Goflags {
+	case "unset":
+		os.Unsetenv("GOFLAGS")
+		out.Fault("env_goflags_unset")
+	case "tags":
+		os.Setenv("GOFLAGS", "-tags=verifx")
+		out.Fault("env_goflags_tags")
+	}
+	defer func() {
+		if hadFlags {
+			os.Setenv("GOFLAGS", savedFlags)
+		} else {
+			os.Unsetenv("GOFLAGS")
+		}
+	}()
 	oldwd, _ := os.Getwd()
 	must(os.Chdir(cwd))
 	var (
@@ -764,6 +832,16 @@ func (c17) Shrink(raw json.RawMessage) []json.RawMessage {
 	if p.Again {
 		q := p
 		q.Again = false
+		out = append(out, kernel.MustJSON(q))
+	}
+	if p.Goflags != "" {
+		q := p
+		q.Goflags, q.Gowork = "", false
+		out = append(out, kernel.MustJSON(q))
+	}
+	if p.Gowork {
+		q := p
+		q.Gowork = false
 		out = append(out, kernel.MustJSON(q))
 	}
 	if p.Outer != "" {
